@@ -275,3 +275,459 @@ theorem detect_subset (cfg : DetectorCfg) (wg : WaitGraph) (lc : Option (Nat →
     exact key _ ([], [], 0) (by simp) (fun x hx => (List.mem_filter.mp hx).1) (c, v) h
 
 end Neumann.Locks
+
+namespace Neumann.Locks
+
+/-! ### completeness of the DFS (classical white/grey/black argument) -/
+
+/-- reachability along wait-for edges (zero or more steps) -/
+inductive Reach (g : Adj) : Nat → Nat → Prop
+  | refl (u : Nat) : Reach g u u
+  | step {u v w : Nat} : v ∈ neighbors g u → Reach g v w → Reach g u w
+
+/-- `u` lies on a cycle: it reaches itself by at least one edge -/
+def OnCycle (g : Adj) (u : Nat) : Prop := ∃ w, w ∈ neighbors g u ∧ Reach g w u
+
+/-- the recorded wait-for relation contains a cycle -/
+def HasCycle (g : Adj) : Prop := ∃ u, OnCycle g u
+
+theorem Reach.trans {g : Adj} {a b c : Nat} (h1 : Reach g a b) (h2 : Reach g b c) : Reach g a c := by
+  induction h1 with
+  | refl => exact h2
+  | step e _ ih => exact Reach.step e (ih h2)
+
+theorem reach_of_walk (g : Adj) (a : Nat) (r : List Nat) (h : IsWalk g (a :: r)) :
+    Reach g a ((a :: r).getLastD 0) := by
+  induction r generalizing a with
+  | nil => exact Reach.refl a
+  | cons b t ih =>
+    simp only [IsWalk] at h
+    have := ih b h.2
+    simp only [List.getLastD_cons] at this ⊢
+    exact Reach.step h.1 this
+
+theorem hasCycle_of_isCycle (g : Adj) (c : List Nat) (h : IsCycle g c) : HasCycle g := by
+  obtain ⟨hne, hw, he⟩ := h
+  cases c with
+  | nil => exact absurd rfl hne
+  | cons a r =>
+    refine ⟨(a :: r).getLastD 0, a, ?_, reach_of_walk g a r hw⟩
+    simpa using he
+
+def Black (s : DfsState) (v : Nat) : Prop := v ∈ s.visited ∧ v ∉ s.recStack
+
+structure CInv (g : Adj) (s : DfsState) : Prop where
+  c1 : ∀ x ∈ s.recStack, x ∈ s.visited
+  c2 : ∀ x ∈ s.recStack, x ∈ s.path
+  c3 : ∀ v, Black s v → ∀ w ∈ neighbors g v, Black s w
+  c4 : ∀ v, Black s v → ¬ OnCycle g v
+
+theorem reach_black (g : Adj) (s : DfsState) (hc : CInv g s) (a b : Nat) (hb : Black s a) (hr : Reach g a b) :
+    Black s b := by
+  induction hr with
+  | refl => exact hb
+  | step e _ ih => exact ih (hc.c3 _ hb _ e)
+
+/-- number of (occurrences of) still unvisited vertices: the recursion-depth budget -/
+def unvisited (g : Adj) (s : DfsState) : Nat := ((vertices g).filter (fun v => decide (v ∉ s.visited))).length
+
+theorem filter_length_mono (l : List Nat) (p q : Nat → Bool) (h : ∀ x, p x = true → q x = true) :
+    (l.filter p).length ≤ (l.filter q).length := by
+  induction l with
+  | nil => simp
+  | cons a r ih =>
+    simp only [List.filter_cons]
+    by_cases hp : p a = true
+    · simp only [hp, h a hp, ↓reduceIte, List.length_cons]; omega
+    · simp only [hp, Bool.false_eq_true, ↓reduceIte]
+      by_cases hq : q a = true
+      · simp only [hq, ↓reduceIte, List.length_cons]; omega
+      · simp only [hq, Bool.false_eq_true, ↓reduceIte]; exact ih
+
+theorem filter_length_lt (l : List Nat) (p q : Nat → Bool) (h : ∀ x, p x = true → q x = true)
+    (a : Nat) (ha : a ∈ l) (hq : q a = true) (hp : p a = false) :
+    (l.filter p).length < (l.filter q).length := by
+  induction l with
+  | nil => simp at ha
+  | cons b r ih =>
+    simp only [List.filter_cons]
+    simp only [List.mem_cons] at ha
+    by_cases e : a = b
+    · subst e
+      have := filter_length_mono r p q h
+      simp only [hp, hq, Bool.false_eq_true, ↓reduceIte, List.length_cons]; omega
+    · have ha' : a ∈ r := by rcases ha with ha | ha; exact absurd ha e; exact ha
+      have := ih ha'
+      by_cases hpb : p b = true
+      · simp only [hpb, h b hpb, ↓reduceIte, List.length_cons]; omega
+      · simp only [hpb, Bool.false_eq_true, ↓reduceIte]
+        by_cases hqb : q b = true
+        · simp only [hqb, ↓reduceIte, List.length_cons]; omega
+        · simp only [hqb, Bool.false_eq_true, ↓reduceIte]; exact this
+
+theorem unvisited_mono (g : Adj) (s s' : DfsState) (h : ∀ x ∈ s.visited, x ∈ s'.visited) :
+    unvisited g s' ≤ unvisited g s := by
+  unfold unvisited
+  apply filter_length_mono
+  intro x hx
+  simp only [decide_eq_true_eq] at hx ⊢
+  exact fun hv => hx (h x hv)
+
+theorem unvisited_le (g : Adj) (s : DfsState) : unvisited g s ≤ (vertices g).length := by
+  unfold unvisited; exact List.length_filter_le _ _
+
+/-! unconditional structure: rec stack restored, visited grows, cycles only appended -/
+
+theorem dfsStep_recStack (recur : Nat → DfsState → DfsState) (hr : ∀ n s, (recur n s).recStack = s.recStack)
+    (s : DfsState) (nb : Nat) : (dfsStep recur s nb).recStack = s.recStack := by
+  unfold dfsStep
+  split
+  · exact hr nb s
+  · split
+    · split <;> rfl
+    · rfl
+
+theorem foldl_dfsStep_recStack (recur : Nat → DfsState → DfsState) (hr : ∀ n s, (recur n s).recStack = s.recStack)
+    (nbs : List Nat) (s : DfsState) : (nbs.foldl (fun acc nb => dfsStep recur acc nb) s).recStack = s.recStack := by
+  induction nbs generalizing s with
+  | nil => rfl
+  | cons a r ih => simp only [List.foldl_cons, ih, dfsStep_recStack recur hr]
+
+theorem dfs_recStack (g : Adj) (fuel node : Nat) (s : DfsState) : (dfs g fuel node s).recStack = s.recStack := by
+  induction fuel generalizing node s with
+  | zero => rfl
+  | succ n ih =>
+    simp only [dfs, foldl_dfsStep_recStack (dfs g n) (fun a b => ih a b), List.erase_cons_head]
+
+theorem dfsStep_visited (recur : Nat → DfsState → DfsState) (hr : ∀ n s, ∀ x ∈ s.visited, x ∈ (recur n s).visited)
+    (s : DfsState) (nb : Nat) : ∀ x ∈ s.visited, x ∈ (dfsStep recur s nb).visited := by
+  unfold dfsStep
+  split
+  · exact hr nb s
+  · split
+    · split <;> exact fun _ h => h
+    · exact fun _ h => h
+
+theorem foldl_dfsStep_visited (recur : Nat → DfsState → DfsState)
+    (hr : ∀ n s, ∀ x ∈ s.visited, x ∈ (recur n s).visited) (nbs : List Nat) (s : DfsState) :
+    ∀ x ∈ s.visited, x ∈ (nbs.foldl (fun acc nb => dfsStep recur acc nb) s).visited := by
+  induction nbs generalizing s with
+  | nil => exact fun _ h => h
+  | cons a r ih =>
+    intro x hx
+    simp only [List.foldl_cons]
+    exact ih _ x (dfsStep_visited recur hr s a x hx)
+
+theorem dfs_visited (g : Adj) (fuel node : Nat) (s : DfsState) :
+    ∀ x ∈ s.visited, x ∈ (dfs g fuel node s).visited := by
+  induction fuel generalizing node s with
+  | zero => exact fun _ h => h
+  | succ n ih =>
+    intro x hx
+    simp only [dfs]
+    exact foldl_dfsStep_visited (dfs g n) (fun a b => ih a b) _ _ x (List.mem_cons_of_mem _ hx)
+
+theorem dfsStep_cycles_nil (recur : Nat → DfsState → DfsState)
+    (hr : ∀ n s, (recur n s).cycles = [] → s.cycles = [])
+    (s : DfsState) (nb : Nat) (h : (dfsStep recur s nb).cycles = []) : s.cycles = [] := by
+  unfold dfsStep at h
+  split at h
+  · exact hr nb s h
+  · split at h
+    · split at h
+      · simp at h
+      · exact h
+    · exact h
+
+theorem foldl_dfsStep_cycles_nil (recur : Nat → DfsState → DfsState)
+    (hr : ∀ n s, (recur n s).cycles = [] → s.cycles = []) (nbs : List Nat) (s : DfsState)
+    (h : (nbs.foldl (fun acc nb => dfsStep recur acc nb) s).cycles = []) : s.cycles = [] := by
+  induction nbs generalizing s with
+  | nil => exact h
+  | cons a r ih =>
+    simp only [List.foldl_cons] at h
+    exact dfsStep_cycles_nil recur hr s a (ih _ h)
+
+theorem dfs_cycles_nil (g : Adj) (fuel node : Nat) (s : DfsState) (h : (dfs g fuel node s).cycles = []) :
+    s.cycles = [] := by
+  induction fuel generalizing node s with
+  | zero => exact h
+  | succ n ih =>
+    simp only [dfs] at h
+    have := foldl_dfsStep_cycles_nil (dfs g n) (fun a b => ih a b) _ _ h
+    exact this
+
+theorem mem_vertices_of_neighbor (g : Adj) (u w : Nat) (h : w ∈ neighbors g u) : w ∈ vertices g ∧ u ∈ g.map (·.1) := by
+  unfold neighbors at h
+  cases hg : aGet g u with
+  | none => simp [hg] at h
+  | some vs =>
+    simp only [hg, Option.getD_some] at h
+    have hm : (u, vs) ∈ g := by
+      clear h
+      induction g with
+      | nil => simp [aGet] at hg
+      | cons p r ih =>
+        obtain ⟨a, b⟩ := p
+        simp only [aGet] at hg
+        by_cases e : a = u
+        · simp only [e, ↓reduceIte, Option.some.injEq] at hg; subst hg; subst e; simp
+        · simp only [e, ↓reduceIte] at hg; exact List.mem_cons_of_mem _ (ih hg)
+    refine ⟨?_, List.mem_map.mpr ⟨(u, vs), hm, rfl⟩⟩
+    unfold vertices
+    exact List.mem_flatMap.mpr ⟨(u, vs), hm, List.mem_cons_of_mem _ h⟩
+
+theorem key_mem_vertices (g : Adj) (u : Nat) (h : u ∈ g.map (·.1)) : u ∈ vertices g := by
+  obtain ⟨p, hp, e⟩ := List.mem_map.mp h
+  unfold vertices
+  exact List.mem_flatMap.mpr ⟨p, hp, by simp [← e]⟩
+
+end Neumann.Locks
+
+namespace Neumann.Locks
+
+theorem dfsStep_unvisited (recur : Nat → DfsState → DfsState) (s : DfsState) (nb : Nat)
+    (h : nb ∉ s.visited) : dfsStep recur s nb = recur nb s := by
+  unfold dfsStep; simp [h]
+
+theorem dfsStep_back (recur : Nat → DfsState → DfsState) (s : DfsState) (nb : Nat) (c : List Nat)
+    (h : nb ∈ s.visited) (h2 : nb ∈ s.recStack) (h3 : suffixFrom nb s.path = some c) :
+    dfsStep recur s nb = { s with cycles := s.cycles ++ [c] } := by
+  unfold dfsStep; simp [h, h2, h3]
+
+theorem dfsStep_done (recur : Nat → DfsState → DfsState) (s : DfsState) (nb : Nat)
+    (h : nb ∈ s.visited) (h2 : nb ∉ s.recStack) : dfsStep recur s nb = s := by
+  unfold dfsStep; simp [h, h2]
+
+/-- The DFS from an unvisited vertex, with enough fuel and no cycle reported, blackens the vertex
+    and keeps the colour invariant. -/
+theorem dfs_complete (g : Adj) (fuel node : Nat) (s : DfsState)
+    (hv : node ∈ vertices g) (hn : node ∉ s.visited) (hm : unvisited g s < fuel) (hc : CInv g s)
+    (hnil : (dfs g fuel node s).cycles = []) :
+    CInv g (dfs g fuel node s) ∧ node ∈ (dfs g fuel node s).visited := by
+  induction fuel generalizing node s with
+  | zero => omega
+  | succ n ih =>
+    have key : ∀ (nbs : List Nat) (acc : DfsState),
+        (∀ nb ∈ nbs, nb ∈ neighbors g node) →
+        acc.recStack = node :: s.recStack → CInv g acc → unvisited g acc < n →
+        (nbs.foldl (fun acc nb => dfsStep (dfs g n) acc nb) acc).cycles = [] →
+        CInv g (nbs.foldl (fun acc nb => dfsStep (dfs g n) acc nb) acc) ∧
+        (∀ x ∈ acc.visited, x ∈ (nbs.foldl (fun acc nb => dfsStep (dfs g n) acc nb) acc).visited) ∧
+        (∀ nb ∈ nbs, Black (nbs.foldl (fun acc nb => dfsStep (dfs g n) acc nb) acc) nb) := by
+      intro nbs
+      induction nbs with
+      | nil => intro acc _ _ hci _ _; exact ⟨hci, fun _ h => h, by simp⟩
+      | cons nb r ihr =>
+        intro acc hnb hrs hci hmu hfin
+        simp only [List.foldl_cons] at hfin ⊢
+        have hstepnil : (dfsStep (dfs g n) acc nb).cycles = [] :=
+          foldl_dfsStep_cycles_nil (dfs g n) (fun a b h => dfs_cycles_nil g n a b h) r _ hfin
+        have hnbE : nb ∈ neighbors g node := hnb nb List.mem_cons_self
+        have hstep : CInv g (dfsStep (dfs g n) acc nb) ∧
+            (∀ x ∈ acc.visited, x ∈ (dfsStep (dfs g n) acc nb).visited) ∧
+            Black (dfsStep (dfs g n) acc nb) nb := by
+          by_cases hvis : nb ∈ acc.visited
+          · by_cases hrs' : nb ∈ acc.recStack
+            · obtain ⟨c, hcs⟩ := suffixFrom_of_mem nb acc.path (hci.c2 nb hrs')
+              rw [dfsStep_back _ _ _ _ hvis hrs' hcs] at hstepnil
+              simp at hstepnil
+            · rw [dfsStep_done _ _ _ hvis hrs']; exact ⟨hci, fun _ h => h, hvis, hrs'⟩
+          · rw [dfsStep_unvisited _ _ _ hvis] at hstepnil ⊢
+            have hnbV := (mem_vertices_of_neighbor g node nb hnbE).1
+            obtain ⟨i1, i2⟩ := ih nb acc hnbV hvis hmu hci hstepnil
+            refine ⟨i1, dfs_visited g n nb acc, i2, ?_⟩
+            rw [dfs_recStack]; intro h; exact hvis (hci.c1 nb h)
+        have hrs2 : (dfsStep (dfs g n) acc nb).recStack = node :: s.recStack := by
+          rw [dfsStep_recStack (dfs g n) (fun a b => dfs_recStack g n a b)]; exact hrs
+        have hmu2 : unvisited g (dfsStep (dfs g n) acc nb) < n :=
+          Nat.lt_of_le_of_lt (unvisited_mono g acc _ hstep.2.1) hmu
+        obtain ⟨f1, f2, f3⟩ := ihr (dfsStep (dfs g n) acc nb)
+          (fun x hx => hnb x (List.mem_cons_of_mem _ hx)) hrs2 hstep.1 hmu2 hfin
+        refine ⟨f1, fun x hx => f2 x (hstep.2.1 x hx), ?_⟩
+        intro x hx
+        simp only [List.mem_cons] at hx
+        rcases hx with hx | hx
+        · subst hx
+          refine ⟨f2 _ hstep.2.2.1, ?_⟩
+          rw [foldl_dfsStep_recStack (dfs g n) (fun a b => dfs_recStack g n a b)]
+          exact hstep.2.2.2
+        · exact f3 x hx
+    -- the state after marking `node`
+    have hs1 : CInv g { visited := node :: s.visited, recStack := node :: s.recStack,
+                        path := s.path ++ [node], cycles := s.cycles } := by
+      refine ⟨?_, ?_, ?_, ?_⟩
+      · intro x hx
+        simp only [List.mem_cons] at hx ⊢
+        rcases hx with hx | hx
+        · exact Or.inl hx
+        · exact Or.inr (hc.c1 x hx)
+      · intro x hx
+        simp only [List.mem_cons] at hx
+        simp only [List.mem_append, List.mem_singleton]
+        rcases hx with hx | hx
+        · exact Or.inr hx
+        · exact Or.inl (hc.c2 x hx)
+      · intro v hb w hw
+        obtain ⟨b1, b2⟩ := hb
+        simp only [List.mem_cons, not_or] at b1 b2
+        have hbv : Black s v := ⟨by rcases b1 with b1 | b1; exact absurd b1 b2.1; exact b1, b2.2⟩
+        obtain ⟨w1, w2⟩ := hc.c3 v hbv w hw
+        refine ⟨List.mem_cons_of_mem _ w1, ?_⟩
+        simp only [List.mem_cons, not_or]
+        exact ⟨fun e => hn (e ▸ w1), w2⟩
+      · intro v hb
+        obtain ⟨b1, b2⟩ := hb
+        simp only [List.mem_cons, not_or] at b1 b2
+        exact hc.c4 v ⟨by rcases b1 with b1 | b1; exact absurd b1 b2.1; exact b1, b2.2⟩
+    have hm1 : unvisited g { visited := node :: s.visited, recStack := node :: s.recStack,
+                             path := s.path ++ [node], cycles := s.cycles } < n := by
+      have : unvisited g { visited := node :: s.visited, recStack := node :: s.recStack,
+                           path := s.path ++ [node], cycles := s.cycles } < unvisited g s := by
+        unfold unvisited
+        apply filter_length_lt _ _ _ _ node hv
+        · simpa using hn
+        · simp
+        · intro x hx
+          simp only [List.mem_cons, not_or, decide_eq_true_eq] at hx ⊢
+          exact hx.2
+      omega
+    simp only [dfs] at hnil ⊢
+    have hrs2 := foldl_dfsStep_recStack (dfs g n) (fun a b => dfs_recStack g n a b) (neighbors g node)
+      { visited := node :: s.visited, recStack := node :: s.recStack, path := s.path ++ [node], cycles := s.cycles }
+    have hp2 := foldl_dfsStep_path (dfs g n) (fun a b => dfs_path g n a b) (neighbors g node)
+      { visited := node :: s.visited, recStack := node :: s.recStack, path := s.path ++ [node], cycles := s.cycles }
+    obtain ⟨k1, k2, k3⟩ := key (neighbors g node) _ (fun _ h => h) rfl hs1 hm1 hnil
+    generalize List.foldl (fun acc nb => dfsStep (dfs g n) acc nb)
+      { visited := node :: s.visited, recStack := node :: s.recStack, path := s.path ++ [node], cycles := s.cycles }
+      (neighbors g node) = s2 at hrs2 hp2 k1 k2 k3 hnil ⊢
+    simp only at hrs2 hp2
+    have hnode2 : node ∈ s2.visited := k2 node List.mem_cons_self
+    refine ⟨⟨?_, ?_, ?_, ?_⟩, hnode2⟩
+    · intro x hx
+      simp only [hrs2, List.erase_cons_head] at hx
+      exact k2 x (List.mem_cons_of_mem _ (hc.c1 x hx))
+    · intro x hx
+      simp only [hrs2, List.erase_cons_head] at hx
+      simp only [hp2, List.dropLast_concat]
+      exact hc.c2 x hx
+    · intro v hb w hw
+      obtain ⟨b1, b2⟩ := hb
+      simp only [hrs2, List.erase_cons_head] at b2 ⊢
+      simp only at b1
+      have hw2 : Black s2 w := by
+        by_cases e : v = node
+        · subst e; exact k3 w hw
+        · exact k1.c3 v ⟨b1, by rw [hrs2]; simp [e, b2]⟩ w hw
+      refine ⟨hw2.1, ?_⟩
+      have := hw2.2
+      rw [hrs2] at this
+      simp only [List.mem_cons, not_or] at this
+      exact this.2
+    · intro v hb
+      obtain ⟨b1, b2⟩ := hb
+      simp only [hrs2, List.erase_cons_head] at b2
+      simp only at b1
+      by_cases e : v = node
+      · subst e
+        rintro ⟨w, hw, hr⟩
+        have hbw : Black s2 w := k3 w hw
+        have := (reach_black g s2 k1 w v hbw hr).2
+        rw [hrs2] at this
+        simp at this
+      · exact k1.c4 v ⟨b1, by rw [hrs2]; simp [e, b2]⟩
+
+end Neumann.Locks
+
+namespace Neumann.Locks
+
+theorem detectLoop_cons (g : Adj) (a : Nat) (r : List Nat) (s : DfsState) :
+    detectLoop g (a :: r) s = detectLoop g r (if a ∉ s.visited then dfs g (dfsFuel g) a s else s) := by
+  simp [detectLoop]
+
+theorem detectLoop_cycles_nil (g : Adj) (starts : List Nat) (s : DfsState)
+    (h : (detectLoop g starts s).cycles = []) : s.cycles = [] := by
+  induction starts generalizing s with
+  | nil => exact h
+  | cons a r ih =>
+    rw [detectLoop_cons] at h
+    have := ih _ h
+    split at this
+    · exact dfs_cycles_nil g _ a s this
+    · exact this
+
+theorem detectLoop_complete (g : Adj) (starts : List Nat) (s : DfsState)
+    (hs : ∀ x ∈ starts, x ∈ vertices g) (hc : CInv g s) (hr : s.recStack = [])
+    (hnil : (detectLoop g starts s).cycles = []) :
+    CInv g (detectLoop g starts s) ∧ (detectLoop g starts s).recStack = [] ∧
+    (∀ x ∈ s.visited, x ∈ (detectLoop g starts s).visited) ∧
+    (∀ x ∈ starts, x ∈ (detectLoop g starts s).visited) := by
+  induction starts generalizing s with
+  | nil => exact ⟨hc, hr, fun _ h => h, by simp⟩
+  | cons a r ih =>
+    rw [detectLoop_cons] at hnil ⊢
+    have hnil1 := detectLoop_cycles_nil g r _ hnil
+    have hstep : CInv g (if a ∉ s.visited then dfs g (dfsFuel g) a s else s) ∧
+        (if a ∉ s.visited then dfs g (dfsFuel g) a s else s).recStack = [] ∧
+        (∀ x ∈ s.visited, x ∈ (if a ∉ s.visited then dfs g (dfsFuel g) a s else s).visited) ∧
+        a ∈ (if a ∉ s.visited then dfs g (dfsFuel g) a s else s).visited := by
+      by_cases hv : a ∈ s.visited
+      · rw [if_neg (by simpa using hv)]; exact ⟨hc, hr, fun _ h => h, hv⟩
+      · rw [if_pos hv] at hnil1 ⊢
+        have hm : unvisited g s < dfsFuel g := by
+          have := unvisited_le g s; unfold dfsFuel; omega
+        obtain ⟨i1, i2⟩ := dfs_complete g (dfsFuel g) a s (hs a List.mem_cons_self) hv hm hc hnil1
+        exact ⟨i1, by rw [dfs_recStack]; exact hr, dfs_visited g _ a s, i2⟩
+    obtain ⟨f1, f2, f3, f4⟩ := ih _ (fun x hx => hs x (List.mem_cons_of_mem _ hx)) hstep.1 hstep.2.1 hnil
+    refine ⟨f1, f2, fun x hx => f3 x (hstep.2.2.1 x hx), ?_⟩
+    intro x hx
+    simp only [List.mem_cons] at hx
+    rcases hx with hx | hx
+    · subst hx; exact f3 _ hstep.2.2.2
+    · exact f4 x hx
+
+/-- **DFS completeness**: a cyclic wait-for relation always yields at least one reported cycle. -/
+theorem detectCycles_complete (g : Adj) (h : HasCycle g) : detectCycles g ≠ [] := by
+  intro hnil
+  obtain ⟨u, w, hw, hr⟩ := h
+  unfold detectCycles at hnil
+  have hinit : CInv g dfsInit := by
+    refine ⟨by simp [dfsInit], by simp [dfsInit], ?_, ?_⟩ <;> (intro v hb; simp [Black, dfsInit] at hb)
+  obtain ⟨f1, f2, _, f4⟩ := detectLoop_complete g (g.map (·.1)) dfsInit
+    (fun x hx => key_mem_vertices g x hx) hinit rfl hnil
+  have hu := f4 u (mem_vertices_of_neighbor g u w hw).2
+  exact f1.c4 u ⟨hu, by rw [f2]; simp⟩ ⟨w, hw, hr⟩
+
+/-- the first cycle that passes the length filter is always reported by `detect` -/
+theorem detect_nonempty (cfg : DetectorCfg) (wg : WaitGraph) (lc : Option (Nat → Nat)) (g : Adj)
+    (hen : cfg.enabled = true) (c : List Nat) (hc : c ∈ detectCycles g) (hl : c.length ≤ cfg.maxCycleLength) :
+    detect cfg wg lc g ≠ [] := by
+  unfold detect
+  simp only [hen, Bool.not_true, Bool.false_eq_true, ↓reduceIte]
+  have hv : c ∈ (detectCycles g).filter (fun c => decide (c.length ≤ cfg.maxCycleLength)) :=
+    List.mem_filter.mpr ⟨hc, by simpa using hl⟩
+  generalize (detectCycles g).filter (fun c => decide (c.length ≤ cfg.maxCycleLength)) = valid at hv
+  cases valid with
+  | nil => simp at hv
+  | cons a r =>
+    simp only [List.foldl_cons]
+    have hfirst : (detectFold cfg wg lc ([], [], 0) a).1 ≠ [] := by
+      simp [detectFold]
+    have mono : ∀ (cs : List (List Nat)) (acc : List (List Nat × Nat) × List Nat × Nat),
+        acc.1 ≠ [] → (cs.foldl (detectFold cfg wg lc) acc).1 ≠ [] := by
+      intro cs
+      induction cs with
+      | nil => intro acc h; exact h
+      | cons b t ih =>
+        intro acc h
+        simp only [List.foldl_cons]
+        apply ih
+        obtain ⟨out, resolved, cascade⟩ := acc
+        unfold detectFold
+        simp only
+        split
+        · exact h
+        · simp
+    exact mono r _ hfirst
+
+end Neumann.Locks
